@@ -213,12 +213,6 @@ Candidates(q, u) ==
   CASE f = "" /\ q.kind \notin DagKinds -> <<OwnEt(q), EtDir(T(q)), EtDag(T(q))>>
     [] f \in {"json", "cbor"}           -> <<u.et, EtDir(T(q))>>
     [] OTHER                            -> <<u.et>>
-\* as built: every non-CAR, non-record request is compared with all three
-BuiltCandidates(q, u) ==
-  LET f == Fmt(q) IN
-  CASE f \in {"car", "ipns-record"} -> <<u.et>>
-    [] f = ""                       -> <<OwnEt(q), EtDir(T(q)), EtDag(T(q))>>
-    [] OTHER                        -> <<u.et, EtDir(T(q)), EtDag(T(q))>>
 CCOf(q, e) == IF e.k = "dir" THEN CCDir(q) ELSE IF e.k \in {"dag", "rec", "recbare"} THEN "none" ELSE CCContent(q)
 
 FirstMatch(cands, tags) ==
@@ -247,14 +241,23 @@ Ideal(q) == IdealT(q, InmTags(q, Uncond(q)), q.inm = "star")
 (* As-built alternatives of the named deviations *)
 Dirty(r) == [r EXCEPT !.clean = FALSE]
 
+\* the tag getEtag() derives from the CID and the requested format alone
+NominalEt(q) == LET f == Fmt(q) IN
+  IF f = "" THEN OwnEt(q) ELSE EtFmt(T(q), IF f = "tar" THEN "x-tar" ELSE f)
+
 AsBuiltT(q, tags, star, D) ==
   LET u  == Uncond(q)
       f  == Fmt(q)
-      cs == IF DevIndex \in D THEN BuiltCandidates(q, u) ELSE Candidates(q, u)
-      r  == Respond(q, tags, star, cs) IN
+      \* DevIndex: before anything else every non-CAR, non-record request is compared with the nominal tag of the
+      \* format, the DirIndex and the DagIndex tag of the resolved CID (even if the format cannot be produced)
+      cs == <<NominalEt(q), EtDir(T(q)), EtDag(T(q))>>
+      m  == IF star THEN 1 ELSE FirstMatch(cs, tags)
+      r  == Respond(q, tags, star, Candidates(q, u)) IN
   \* DevRec: the ipns-record ETag is emitted without quotes, so no If-None-Match value can ever match it
   IF DevRec \in D /\ u.st = 200 /\ u.et.k = "rec"
   THEN IF star THEN NotModified(EtRecBare, "none") ELSE [u EXCEPT !.et = EtRecBare]
+  ELSE IF DevIndex \in D /\ (q.deser \/ Trustless(q)) /\ f \notin {"car", "ipns-record"} /\ m # 0
+  THEN NotModified(cs[m], CCOf(q, cs[m]))
   \* DevErr: the 400 / 406 of the codec renderer and its trailing-slash redirect keep ETag + Cache-Control
   ELSE IF DevErr \in D /\ q.deser /\ f \in {"", "json", "cbor"} /\ q.kind \in CodecKinds /\ u.st \in {400, 301}
   THEN Dirty(u)
